@@ -90,6 +90,89 @@ func checkC13(c *Ctx) {
 		}
 	}
 
+	// the same, through helpers: a request that obtains the selector more than once (its own loads of p.ipSelector
+	// plus calls to helpers that load it) works on more than one snapshot unless one critical section covers them all
+	{
+		isSelLoad := func(in ssa.Instruction) bool {
+			u, ok := in.(*ssa.UnOp)
+			if !ok || u.Op != token.MUL {
+				return false
+			}
+			o, fld, ok := fieldOwner(u.X)
+			return ok && o == "regprocessor.RegProcessor" && fld == "ipSelector"
+		}
+		memo := map[*ssa.Function]bool{}
+		var loadsSel func(g *ssa.Function, d int) bool
+		loadsSel = func(g *ssa.Function, d int) bool {
+			if g == nil || g.Blocks == nil || d > 3 {
+				return false
+			}
+			if v, ok := memo[g]; ok {
+				return v
+			}
+			memo[g] = false
+			found := false
+			eachInstr(g, func(in ssa.Instruction) {
+				if isSelLoad(in) {
+					found = true
+				}
+				if ci, ok := in.(ssa.CallInstruction); ok {
+					if cal := ci.Common().StaticCallee(); cal != nil && isRepoPath(fnPkgPath(cal)) && loadsSel(cal, d+1) {
+						found = true
+					}
+				}
+			})
+			memo[g] = found
+			return found
+		}
+		for _, f := range fns {
+			var events []ssa.Instruction
+			eachInstr(f, func(in ssa.Instruction) {
+				if isSelLoad(in) {
+					events = append(events, in)
+				}
+				if ci, ok := in.(ssa.CallInstruction); ok {
+					if cal := ci.Common().StaticCallee(); cal != nil && cal != f && isRepoPath(fnPkgPath(cal)) && loadsSel(cal, 0) {
+						events = append(events, in)
+					}
+				}
+			})
+			if len(events) < 2 {
+				continue
+			}
+			lf := analyseLocks(f, lockSet{})
+			nAcq, unlocks := 0, 0
+			eachInstr(f, func(in ssa.Instruction) {
+				if call, ok := in.(*ssa.Call); ok {
+					if p, _, op := lockOp(&call.Call); strings.HasSuffix(p, ".selectorMutex") {
+						if op == "lock" {
+							nAcq++
+						} else if op == "unlock" {
+							unlocks++
+						}
+					}
+				}
+			})
+			allHeld := true
+			for _, ev := range events {
+				held := false
+				for k := range realLocks(lf.Must[ev]) {
+					if strings.Contains(k, ".selectorMutex") {
+						held = true
+					}
+				}
+				allHeld = allHeld && held
+			}
+			construct := fmt.Sprintf("%s: obtains the selector %d times (own loads and helper calls)", fnName(f), len(events))
+			if nAcq == 1 && unlocks == 0 && allHeld {
+				r.OK("C13.2b", construct, events[0].Pos(), "one acquisition of selectorMutex covers all of them")
+			} else {
+				r.Bad("C13.2b", construct+" in separate critical sections", events[0].Pos(), fnName(f),
+					"the request obtains p.ipSelector more than once (directly or through a helper that takes the lock, loads the selector and releases the lock): a reload between two of them gives the IPv4 and IPv6 phantoms of one request from different subnet sets")
+			}
+		}
+	}
+
 	// C13.3 reload
 	r.Rule("C13.3", "ReloadSubnets: parse outside the lock, no call under the write lock, store only when the load succeeded", 3)
 	if f := c.fn("C13.3", "pkg/regserver/regprocessor", "RegProcessor", "ReloadSubnets"); f != nil {
